@@ -636,13 +636,16 @@ def gen_story(rng, big=False, withsyms=False):
     for _ in range(rng.randrange(1, 7 if big else 5)):
         k = rng.random()
         pid, si = rng.choice(procs)
+        # a task is created strictly after its creator's latest session reference (two clock readings of one
+        # lineage differ); equal time stamps between unrelated events stay in the generated class
+        later = st.timeline[pid][-1][0] >= st.t
         if k < 0.25:        # new thread
-            t = st.tick(rng.random() < 0.2)
+            t = st.tick(rng.random() < 0.2 and not later)
             st.events.append(("TASK", nexttid, pid, t))
             enter(nexttid, si, t)
             nexttid += 1
         elif k < 0.5:       # fork
-            t = st.tick(rng.random() < 0.2)
+            t = st.tick(rng.random() < 0.2 and not later)
             st.events.append(("FORK", nexttid, pid, t))
             enter(nexttid, si, t)
             procs.append((nexttid, si))
@@ -948,8 +951,9 @@ def meta(ctx):
     ctx.assume = [
         "symbol tables are address-sorted with pairwise disjoint ranges for the completeness direction (soundness holds for "
         "every table); addr+size does not wrap 2^64",
-        "task.txt lines are those `uftrace record` writes (time-ordered per task; parent chain acyclic); the sscanf parsing of "
-        "task.txt itself is not modelled (exercised through the real reader only)",
+        "task.txt lines are those `uftrace record` writes (time-ordered per task; a task is created strictly after its "
+        "creator's latest session reference; parent chain acyclic); the sscanf parsing of task.txt itself is not modelled "
+        "(exercised through the real reader only)",
         "no NUL bytes / over-long tokens in .sym and .map files (robustness against malformed files is C12)",
         "the rb-tree of sessions is represented by its in-order sequence (rotations preserve it)",
     ]
